@@ -5,6 +5,7 @@
 PATCH="$(readlink -f "$1")"; TIER="$2"; shift 2
 REPO="${VERIF_REPO:-/repo}"
 V="$(dirname "$(dirname "$(readlink -f "$0")")")"
+export VERIF_EVIDENCE_DIR=/tmp/verif_trial/evidence VERIF_REPLAY_DIR=/tmp/verif_trial/replays; mkdir -p $VERIF_EVIDENCE_DIR $VERIF_REPLAY_DIR
 cd "$REPO" || exit 9
 if ! git diff --quiet; then echo "refusing: $REPO has uncommitted changes"; exit 9; fi
 restore() { git -C "$REPO" checkout -- . ; }
